@@ -12,7 +12,7 @@ RULE = ("writer: boundary sweep chunk size {1,2,3,127,128,129,4095,4096,4097,655
         "through ChunkComposer.RunLoop, previous-header compression sweep, message sequences; reader: random legal chunkings from a "
         "python reference encoder (all four header formats, 1/2/3-byte basic headers, interleaved chunk streams, Set Chunk Size at "
         "any point, aggregate messages, extended absolute timestamps) plus truncations and byte mutations of them; the extracted "
-        "reference decoder (Coq) is compared with lal's reader on the legal streams; MessagePacker: every signalling writer and ChunkAndWrite itself on one reused packer over body lengths around multiples of LocalChunkSize, csid/type/msid combinations, stream names up to 70000 bytes, transaction ids up to 2^62, decoded by the python reference reader and read back by ChunkComposer; a case is non-trivial when the model output "
+        "reference decoder (Coq) is compared with lal's reader on the legal streams; reader histories over 65..300 distinct chunk stream ids each first opened by a type 0 message and later addressed by type 1/2/3 headers; MessagePacker: every signalling writer and ChunkAndWrite itself on one reused packer over body lengths around multiples of LocalChunkSize, csid/type/msid combinations, stream names up to 70000 bytes, transaction ids up to 2^62, decoded by the python reference reader and read back by ChunkComposer; a case is non-trivial when the model output "
         "is not an error and its (op, class, size class) key is new")
 ASSUMPTIONS = ["flashVer / version strings of the tree are lal0.37.4 / 0,37,4 (constants of gen/c08.py; a version bump needs them updated)",
                "messages of 2^24-1 bytes are exercised in the thorough tier only",
@@ -645,6 +645,56 @@ def random_legal_stream(rng, big=False):
     return chunk0, bytes(enc.out), tag
 
 
+def many_streams_history(rng, n):
+    """a legal chunking that uses n distinct chunk stream ids (1-, 2- and 3-byte basic headers mixed): every chunk stream
+    first carries a type 0 message; after ALL of them, every chunk stream carries type 1 / 2 / 3 messages that depend on
+    the header it remembered (5.3.1.2: the reader keeps the previous header of every chunk stream id, without bound)"""
+    chunk0 = rng.choice([2, 5, 128, 128, 4096])
+    enc = RefEncoder(chunk0)
+    pool = list(range(2, 64)) + rng.sample(range(64, 320), min(n, 120)) + rng.sample(range(320, 65600), n)
+    csids = rng.sample(pool, n)
+    if n >= 3:
+        csids[0], csids[1], csids[2] = 2, 64, 65599
+        csids = list(dict.fromkeys(csids))
+        while len(csids) < n:
+            c = rng.randrange(2, 65600)
+            if c not in csids:
+                csids.append(c)
+    first = {}
+    for c in csids:
+        ts = rng.choice([0, 1, 40, 1000, ESC - 1, rng.randrange(ESC)])
+        m = (c, rng.choice([8, 9, 18, 20]), rng.choice([0, 1, 5, 0xFFFFFFFF]), ts, bytes(rng.randrange(256) for _ in range(rng.choice([0, 1, 3, 7]))))
+        enc.start(m, 0, c >= 64 and rng.random() < 0.15)
+        while enc.open_csids():
+            enc.cont(enc.open_csids()[0])
+        first[c] = m
+    order = list(csids)
+    rng.shuffle(order)
+    for rnd in range(2):
+        for c in order:
+            prev = first[c]
+            want = rng.choice([1, 2, 3]) if rnd == 0 else rng.choice([0, 1, 2, 3])
+            if want == 3:
+                e = enc.mem[c]
+                m = (c, prev[1], prev[2], (prev[3] + e["delta"]) % (1 << 32), bytes(rng.randrange(256) for _ in range(len(prev[4]))))
+            elif want == 2:
+                m = (c, prev[1], prev[2], (prev[3] + rng.choice([0, 1, 40, ESC - 1])) % (1 << 32), bytes(rng.randrange(256) for _ in range(len(prev[4]))))
+            elif want == 1:
+                m = (c, rng.choice([8, 9, 18]), prev[2], (prev[3] + rng.choice([0, 1, 40, 1000])) % (1 << 32),
+                     bytes(rng.randrange(256) for _ in range(rng.choice([0, 1, 2, 5, 9]))))
+            else:
+                m = (c, 9, rng.choice([0, 1, 7]), rng.randrange(1 << 32), bytes(rng.randrange(256) for _ in range(rng.choice([0, 2, 4]))))
+            fmts = enc.allowed_formats(m)
+            fmt = want if want in fmts else max(fmts)
+            enc.start(m, fmt, c >= 64 and rng.random() < 0.15)
+            while enc.open_csids():
+                enc.cont(enc.open_csids()[0])
+            first[c] = m
+        if n > 150:
+            break
+    return chunk0, bytes(enc.out)
+
+
 def gen_cases(tier, rng):
     thorough = tier == "thorough"
     # ---- writer -> reader round trip, boundary sweep (prev = nil, as every exported entry point calls it)
@@ -707,6 +757,13 @@ def gen_cases(tier, rng):
     for line in READER_CORNERS:
         yield Case(line, cls="rd-corner")
     yield from gen_packer(tier, rng)
+    # ---- reader memory is per chunk stream id and unbounded: histories over 65..300 distinct csids, every one of them
+    #      later addressed by compressed (type 1/2/3) headers
+    for i, n in enumerate([65, 66, 64, 70, 100, 128, 129, 200, 256, 300] + ([65, 80, 150, 300] * 5 if thorough else [])):
+        chunk0, data = many_streams_history(rng, n)
+        yield Case("c08.rd %d %d %s" % (chunk0, i & 1, hex_tok(data)), cls="rd-many-csids")
+        if i % 2 == 0:
+            yield Case("c08.ref %d %s" % (chunk0, hex_tok(data)), cls="ref-many-csids")
     if thorough:
         for n in [(1 << 24) - 1, (1 << 24) - 2]:
             for c in [4096, 65536]:
